@@ -1,5 +1,156 @@
 import ZoektModel.Basic.Proto
+import ZoektModel.C33.Driver
+import ZoektModel.C34.Spec
 namespace ZoektModel.C34
-/-- stub: no model driver for C34 yet -/
-def main : IO Unit := ZoektModel.Proto.runLines (fun _ => ZoektModel.Proto.badCase "no model driver for C34")
+open ZoektModel ZoektModel.Proto ZoektModel.C33
+
+/-! ### trees: pre-order tokens separated by `,` — `d<nameHex>` opens a directory, `u` closes it, `f<nameHex>` a regular
+    file, `o<nameHex>` anything else; `_` = empty directory -/
+
+def tokName (tok : String) : Option String := hexStr? (tok.drop 1).toString
+
+/-- parse entries until the matching `u` (or the end); fuel = number of tokens -/
+def parseEntries : Nat → List String → Option (Entries × List String)
+  | 0, toks => some ([], toks)
+  | _ + 1, [] => some ([], [])
+  | fuel + 1, tok :: rest =>
+    if tok == "u" then some ([], rest)
+    else if tok.startsWith "d" then do
+      let n ← tokName tok
+      let (sub, rest1) ← parseEntries fuel rest
+      let (sibs, rest2) ← parseEntries fuel rest1
+      pure ((n, Tree.dir sub) :: sibs, rest2)
+    else if tok.startsWith "f" then do
+      let n ← tokName tok
+      let (sibs, rest1) ← parseEntries fuel rest
+      pure ((n, Tree.file) :: sibs, rest1)
+    else if tok.startsWith "o" then do
+      let n ← tokName tok
+      let (sibs, rest1) ← parseEntries fuel rest
+      pure ((n, Tree.other) :: sibs, rest1)
+    else none
+
+def parseTree (s : String) : Option Tree :=
+  if s == "_" then some (.dir []) else
+  let toks := s.splitOn ","
+  match parseEntries (toks.length + 1) toks with
+  | some (es, []) => some (.dir es)
+  | _ => none
+
+/-- roots: `pathHex=tree` separated by `;` -/
+def parseRoot (s : String) : Option (String × Tree) :=
+  match s.splitOn "=" with
+  | [p, t] => do pure (← hexStr? p, ← parseTree t)
+  | _ => none
+
+def showSpecs (l : List (String × String)) : String := showL ";" (fun p => strHex p.1 ++ ":" ++ strHex p.2) l
+
+def parseSpec (s : String) : Option (String × String) :=
+  match s.splitOn ":" with
+  | [a, b] => do pure (← hexStr? a, ← hexStr? b)
+  | _ => none
+
+def showDisc : Except DiscErr (List (String × String)) → String
+  | .ok l => "ok " ++ showSpecs l
+  | .error .dupRoot => "err duproot"
+  | .error .dupName => "err dupname"
+  | .error .dupSource => "err dupsource"
+
+def showRecord (r : Record) : String := strHex r.name ++ ":" ++ strHex r.source ++ ":" ++ showL "," strHex r.shards
+
+def parseRecord (s : String) : Option Record :=
+  match s.splitOn ":" with
+  | [a, b, c] => do pure ⟨← hexStr? a, ← hexStr? b, ← list? "," hexStr? c⟩
+  | _ => none
+
+def showSel : Except SelErr (List Record) → String
+  | .ok l => "ok " ++ showL ";" showRecord l
+  | .error .notFound => "err notfound"
+  | .error .ambiguous => "err ambiguous"
+
+structure Impl where
+  fc : List Event
+  fcerr : String
+  post : Inv
+
+def parseImpl (s : String) : Option Impl :=
+  match fields s with
+  | [d, e, f] => do
+    pure ⟨← list? "," parseEvent (← kv? "fc" d), ← kv? "fcerr" e, ← list? ";" parseShard (← kv? "post" f)⟩
+  | _ => none
+
+def renderF (fc : List Event) (fcerr : String) (post : Inv) : String :=
+  s!"fc={showL "," showEvent fc} fcerr={fcerr} post={showL ";" showShard (sortInv post)}"
+
+/-- class of a convergence failure. `stale-shard-kept` (the known finding) only if the shards to blame were already
+    there before the run, carry a discovered repository's name and source and lay *outside* the contiguous shard run
+    `FindAllShards` sees for that repository in the prior state minus the run's own removals (so neither IndexState nor Builder.Finish ever look at
+    them), and the rest of the final inventory is as the statement demands. Anything else is `not-converged`. -/
+def convergenceKey (cwd : String) (desired : List Repo) (inv : Inv) (removed : List String) (post : Inv) : String :=
+  let inv1 := inv.filter fun s => !removed.contains s.path      -- the prior state after the run's own removals
+  let stray := post.filter fun s => inv1.contains s && desired.any fun r =>
+    decide (ident cwd s = identR cwd r) && !((allShards inv1 r).contains s.path)
+  let post' := post.filter (fun s => !stray.contains s)
+  if !stray.isEmpty && converged cwd desired post' then "stale-shard-kept" else "not-converged"
+
+def handle (line : String) : String :=
+  let (inp, impl) := splitCase line
+  match fields inp with
+  | ["discover", rs] =>
+    match list? ";" parseRoot rs with
+    | some roots =>
+      let model := showDisc (discoverRepositories roots)
+      let implRes : Option (Option (List (String × String))) :=
+        match fields impl with
+        | ["ok", l] => (list? ";" parseSpec l).map some
+        | ["err", _] => some none
+        | _ => none
+      match implRes with
+      | none => badCase "impl output"
+      | some res => if checkDiscover roots res then answer model else specFail model "discover-spec"
+    | none => badCase "fields"
+  | ["fsync", cwd, ds, ss] =>
+    match hexStr? cwd, list? ";" parseRepo ds, list? ";" parseShard ss with
+    | some cwd, some desired, some inv =>
+      if !apartAll desired then badCase "shard paths of two repositories interfere" else
+      let f := runSync true cwd desired inv
+      let model := renderF f.events (boolErr f.err) f.inv
+      match parseImpl impl with
+      | none => badCase "impl output"
+      | some i =>
+        if i.fcerr == "ok" && !(converged cwd desired (sortInv i.post)) then
+          specFail model (convergenceKey cwd desired inv (performedRemovals i.fc) (sortInv i.post))
+        else answer model
+    | _, _, _ => badCase "fields"
+  | ["fremove", cwd, sels, ss] =>
+    match hexStr? cwd, list? "," hexStr? sels, list? ";" parseShard ss with
+    | some cwd, some sels, some inv =>
+      let f := runRemove true cwd sels inv
+      let model := renderF f.events (showErr f.err) f.inv
+      match parseImpl impl with
+      | none => badCase "impl output"
+      | some i =>
+        if !(removeExact cwd sels (sortInv inv) (sortInv i.post) (i.fcerr != "ok")) then specFail model "remove-not-exact"
+        else answer model
+    | _, _, _ => badCase "fields"
+  | ["select", cwd, sels, ss] =>
+    match hexStr? cwd, list? "," hexStr? sels, list? ";" parseShard ss with
+    | some cwd, some sels, some inv =>
+      let model := showSel (selectRecords cwd (recordsFromShards cwd inv) sels)
+      let implRes : Option (Option (List Record)) :=
+        match fields impl with
+        | ["ok", l] => (list? ";" parseRecord l).map some
+        | ["err", _] => some none
+        | _ => none
+      match implRes with
+      | none => badCase "impl output"
+      | some res => if checkSelect cwd sels inv res then answer model else specFail model "select-spec"
+    | _, _, _ => badCase "fields"
+  | ["norm", cwd, src] =>
+    match hexStr? cwd, hexStr? src with
+    | some cwd, some src => answer (strHex (normalizeSource cwd src))
+    | _, _ => badCase "fields"
+  | _ => badCase "op"
+
+def main : IO Unit := runLines handle
 end ZoektModel.C34
